@@ -283,10 +283,24 @@ type Tracker struct {
 	lastAllocNode map[string]string          // pod -> node of its last Allocate event
 	lastEvict map[string]*pod_info.PodInfo // pod -> copy at eviction time (node, groups)
 	ghosts    map[string]*pod_info.PodInfo // pod -> releasing instance still charged on its node
+	// a NOMINATION of an already moved pod that a later statement evicted again: the scheduler turns the
+	// nominated instance into a releasing one (Pipelined -> Releasing through UpdateTask) and, when it
+	// nominates the pod onto yet another device, leaves that releasing instance charged as well
+	reEvict  map[string]*pod_info.PodInfo   // pod -> copy of the nominated instance at its eviction
+	phantoms map[string][]*pod_info.PodInfo // pod -> evicted nominations still charged as releasing
+	// a pod whose nomination was evicted again is evicted TWICE in the cycle; when the second eviction
+	// fails at commit (the pod is already gone) the recovery un-evicts a task that a later operation of
+	// the same statement has already nominated again: a second Allocate event with no Deallocate in
+	// between, i.e. the queues are charged twice
+	nominationEvicted map[string]bool
+	lastEvent         map[string]string
+	doubleAlloc       map[string]int
 }
 
 func NewTracker() *Tracker {
-	return &Tracker{lastAllocNode: map[string]string{}, lastEvict: map[string]*pod_info.PodInfo{}, ghosts: map[string]*pod_info.PodInfo{}}
+	return &Tracker{lastAllocNode: map[string]string{}, lastEvict: map[string]*pod_info.PodInfo{}, ghosts: map[string]*pod_info.PodInfo{},
+		reEvict: map[string]*pod_info.PodInfo{}, phantoms: map[string][]*pod_info.PodInfo{},
+		nominationEvicted: map[string]bool{}, lastEvent: map[string]string{}, doubleAlloc: map[string]int{}}
 }
 
 func sameGroups(a, b []string) bool {
@@ -306,6 +320,11 @@ func sameGroups(a, b []string) bool {
 
 func (tr *Tracker) OnDeallocate(t *pod_info.PodInfo) {
 	key := t.Namespace + "/" + t.Name
+	tr.lastEvent[key] = "dealloc"
+	if t.Status == pod_status.Releasing && tr.lastAllocNode[key] == t.NodeName && tr.lastEvict[key] != nil {
+		// evicted before, nominated since (last Allocate event on this node), evicted again
+		tr.nominationEvicted[key] = true
+	}
 	if t.Status == pod_status.Releasing {
 		// (if the nomination of a moved pod is being undone, the ghost stays until the node's pod map
 		// shows the releasing instance again; ghostsOn de-duplicates against the pod map)
@@ -315,10 +334,15 @@ func (tr *Tracker) OnDeallocate(t *pod_info.PodInfo) {
 			// the other node, see the open C13 finding); the record of the eviction itself stays
 			return
 		}
-		if _, moved := tr.ghosts[key]; moved {
+		if g, moved := tr.ghosts[key]; moved {
 			// a later solver of the same cycle evicts the NOMINATED instance of a pod that was already
 			// moved to another device: the original releasing instance is still charged on its device,
 			// so the record of the first eviction (and the ghost) stays
+			if !sameGroups(g.GPUGroups, t.GPUGroups) {
+				c := t.Clone()
+				c.GPUGroups = append([]string{}, t.GPUGroups...)
+				tr.reEvict[key] = c
+			}
 			return
 		}
 		c := t.Clone()
@@ -329,8 +353,30 @@ func (tr *Tracker) OnDeallocate(t *pod_info.PodInfo) {
 
 func (tr *Tracker) OnAllocate(t *pod_info.PodInfo) {
 	key := t.Namespace + "/" + t.Name
+	if tr.lastEvent[key] == "alloc" && tr.nominationEvicted[key] {
+		tr.doubleAlloc[key]++
+	}
+	tr.lastEvent[key] = "alloc"
 	tr.lastAllocNode[key] = t.NodeName
 	if t.Status == pod_status.Pipelined {
+		if re, ok := tr.reEvict[key]; ok && re.NodeName == t.NodeName {
+			kept := tr.phantoms[key][:0:0]
+			for _, ph := range tr.phantoms[key] {
+				if !sameGroups(ph.GPUGroups, re.GPUGroups) {
+					kept = append(kept, ph)
+				}
+			}
+			if sameGroups(re.GPUGroups, t.GPUGroups) {
+				delete(tr.reEvict, key) // the eviction of the nomination was undone (or it was re-nominated in place)
+			} else {
+				kept = append(kept, re) // nominated onto yet another device: the evicted nomination stays charged
+			}
+			if len(kept) == 0 {
+				delete(tr.phantoms, key)
+			} else {
+				tr.phantoms[key] = kept
+			}
+		}
 		if ev, ok := tr.lastEvict[key]; ok && ev.NodeName == t.NodeName && t.IsSharedGPUAllocation() && len(t.GPUGroups) > 0 && !sameGroups(ev.GPUGroups, t.GPUGroups) {
 			tr.ghosts[key] = ev
 		} else {
@@ -341,6 +387,8 @@ func (tr *Tracker) OnAllocate(t *pod_info.PodInfo) {
 	// un-evicted (or bound again): no pending eviction
 	delete(tr.lastEvict, key)
 	delete(tr.ghosts, key)
+	delete(tr.reEvict, key)
+	delete(tr.phantoms, key)
 }
 
 func (tr *Tracker) ghostsOn(ni *node_info.NodeInfo) []*pod_info.PodInfo {
@@ -356,6 +404,29 @@ func (tr *Tracker) ghostsOn(ni *node_info.NodeInfo) []*pod_info.PodInfo {
 			continue // the pod map holds the releasing instance itself
 		}
 		out = append(out, g)
+	}
+	return out
+}
+
+// phantomsOn: evicted nominations still charged on the node as releasing instances (see Tracker).
+func (tr *Tracker) phantomsOn(ni *node_info.NodeInfo) []*pod_info.PodInfo {
+	var out []*pod_info.PodInfo
+	if tr == nil {
+		return nil
+	}
+	for key, list := range tr.phantoms {
+		if _, moved := tr.ghosts[key]; !moved {
+			continue
+		}
+		for _, g := range list {
+			if g.NodeName != ni.Name {
+				continue
+			}
+			if cur, ok := ni.PodInfos[pod_info.PodKey(g.Pod)]; ok && cur.Status == pod_status.Releasing && sameGroups(cur.GPUGroups, g.GPUGroups) {
+				continue // the pod map holds this releasing instance itself
+			}
+			out = append(out, g)
+		}
 	}
 	return out
 }
@@ -387,6 +458,13 @@ func Accounting(ssn *framework.Session, where string, tr *Tracker) []Problem {
 		}
 		ghosts := tr.ghostsOn(ni)
 		instances = append(instances, ghosts...)
+		if ph := tr.phantomsOn(ni); len(ph) > 0 {
+			// reported under its own key; the instance is then counted the way the scheduler counts it, so
+			// that every OTHER deviation on this node is still seen
+			add("evicted-nomination-charged-as-releasing", "node %s: %s was evicted, nominated onto another device, and that NOMINATION was evicted again by a later statement of the same cycle; the node keeps charging the evicted nomination (groups %v) as a releasing pod although nothing runs there", name, ph[0].Name, ph[0].GPUGroups)
+			instances = append(instances, ph...)
+			ghosts = append(ghosts, ph...)
+		}
 		// closed forms for cpu / memory
 		var usedC, usedM, nonPipeC, nonPipeM, relC, relM float64
 		shared := false
@@ -468,6 +546,7 @@ func Accounting(ssn *framework.Session, where string, tr *Tracker) []Problem {
 					ni.Used.GPUs(), ni.Idle.GPUs(), ni.Releasing.GPUs(), usedGPU, ni.Allocatable.GPUs()-nonPipeGPU, relGPU)
 			}
 		} else if len(ghosts) == 0 {
+			drifted := false
 			a := rebuild(ni, vm, false)
 			b := rebuild(ni, vm, true)
 			if a != nil && b != nil && near(a.Idle.GPUs(), b.Idle.GPUs()) && near(a.Releasing.GPUs(), b.Releasing.GPUs()) {
@@ -493,12 +572,14 @@ func Accounting(ssn *framework.Session, where string, tr *Tracker) []Problem {
 					if len(cl) == 0 {
 						cl = []string{"none"}
 					}
+					drifted = true
 					add(fmt.Sprintf("node-gpu-counters-differ-from-rebuild idle%+.0f releasing%+.0f sharer-statuses=%s", ni.Idle.GPUs()-a.Idle.GPUs(), ni.Releasing.GPUs()-a.Releasing.GPUs(), strings.Join(cl, "+")),
 						"node %s GPUs used/idle/releasing = %.2f/%.2f/%.2f, a NodeInfo rebuilt from the same %d pods has %.2f/%.2f/%.2f (sharers: %s)", name,
 						ni.Used.GPUs(), ni.Idle.GPUs(), ni.Releasing.GPUs(), len(ni.PodInfos), a.Used.GPUs(), a.Idle.GPUs(), a.Releasing.GPUs(), strings.Join(fp, ","))
 				}
 			}
-			// bounds hold regardless
+			// bounds hold regardless (reported only when the comparison above did not already report the
+			// node's counters at this point: a negative idle count is then one more symptom of that drift)
 			// (only meaningful when the pods themselves do not oversubscribe the node's devices)
 			devs := map[string]bool{}
 			whole := 0.0
@@ -511,7 +592,7 @@ func Accounting(ssn *framework.Session, where string, tr *Tracker) []Problem {
 					whole += t.AcceptedResource.GPUs()
 				}
 			}
-			if ni.Idle.GPUs() < -eps && whole+float64(len(devs)) <= ni.Allocatable.GPUs()+eps {
+			if ni.Idle.GPUs() < -eps && whole+float64(len(devs)) <= ni.Allocatable.GPUs()+eps && !drifted {
 				add("node-idle-gpus-negative", "node %s Idle GPUs = %.2f", name, ni.Idle.GPUs())
 			}
 		}
@@ -530,6 +611,14 @@ func Accounting(ssn *framework.Session, where string, tr *Tracker) []Problem {
 			}
 			if t.Status == pod_status.Releasing && jt.Status == pod_status.Pipelined {
 				continue // evicted here and nominated elsewhere (or on another device): two instances by design
+			}
+			if t.Status == pod_status.Releasing && jt.Status == pod_status.Releasing && jt.NodeName != name &&
+				tr != nil && tr.lastAllocNode[jt.Namespace+"/"+jt.Name] == jt.NodeName {
+				// evicted here, nominated onto another node, and that nomination was evicted again by a later
+				// statement: the node of the nomination charges a releasing pod that never ran there (same
+				// finding as the same-node variant above)
+				add("evicted-nomination-charged-as-releasing", "node %s: %s was evicted here and nominated onto %s, and that NOMINATION was evicted again by a later statement of the same cycle; %s charges it as a releasing pod although nothing runs there", name, t.Name, jt.NodeName, jt.NodeName)
+				continue
 			}
 			if statusClass(jt.Status) != statusClass(t.Status) || jt.NodeName != name {
 				add("node-pod-status-differs", "node %s holds %s as %s, its job says %s on node %q", name, t.Name, t.Status, jt.Status, jt.NodeName)
@@ -620,6 +709,15 @@ func Accounting(ssn *framework.Session, where string, tr *Tracker) []Problem {
 				continue
 			}
 			q := putils.QuantifyResourceRequirements(t.AcceptedResource)
+			times := 1.0
+			if tr != nil {
+				if n := tr.doubleAlloc[t.Namespace+"/"+t.Name]; n > 0 {
+					// reported under the finding's own key; the extra charges are then counted the way the
+					// plugin counted them, so that every OTHER deviation of the queues is still seen
+					times += float64(n)
+					add("evicted-nomination-charged-as-releasing", "queue %s: %s was evicted twice in this cycle (the second time as a nomination), the second eviction failed at commit and its recovery announced the pod as allocated again although a later operation had already nominated it: its queues are charged %d times", j.Queue, t.Name, n+1)
+				}
+			}
 			seen := map[string]bool{}
 			for cur, ok := ssn.ClusterInfo.Queues[j.Queue]; ok && !seen[string(cur.UID)]; cur, ok = ssn.ClusterInfo.Queues[cur.ParentQueue] {
 				seen[string(cur.UID)] = true
@@ -628,9 +726,9 @@ func Accounting(ssn *framework.Session, where string, tr *Tracker) []Problem {
 					s = &qsum{}
 					sums[string(cur.UID)] = s
 				}
-				s.gpu += q[rs.GpuResource]
-				s.cpu += q[rs.CpuResource]
-				s.mem += q[rs.MemoryResource]
+				s.gpu += times * q[rs.GpuResource]
+				s.cpu += times * q[rs.CpuResource]
+				s.mem += times * q[rs.MemoryResource]
 			}
 		}
 	}
@@ -646,11 +744,17 @@ func Accounting(ssn *framework.Session, where string, tr *Tracker) []Problem {
 		// QueueAllocatedResources converts through NewGpuResourceRequirementWithGpus, which keeps only
 		// whole GPUs once the amount reaches 1 (a display helper): apply the same mapping to the
 		// recomputed value.
-		wantGPU := s.gpu
-		if wantGPU >= 1 {
-			wantGPU = math.Floor(wantGPU + eps)
+		// The plugin adds the same float64 shares in another order than this recomputation: a sum like
+		// 0.3+0.3+0.7+0.7 is 2 here and 1.9999999999999998 there, which the helper truncates to 1. Both
+		// truncations of a value within eps of a whole number are accepted.
+		wantGPU, altGPU := s.gpu, s.gpu
+		if s.gpu >= 1-eps {
+			wantGPU, altGPU = math.Floor(s.gpu+eps), math.Floor(s.gpu-eps)
+			if altGPU < 1 {
+				altGPU = s.gpu // below one whole GPU the helper keeps the fraction
+			}
 		}
-		if !near(a.GPUs(), wantGPU) || !near(a.Cpu(), s.cpu) || !near(a.Memory(), s.mem) {
+		if !(near(a.GPUs(), wantGPU) || near(a.GPUs(), altGPU)) || !near(a.Cpu(), s.cpu) || !near(a.Memory(), s.mem) {
 			add("queue-allocated-differs", "queue %s allocated gpu/cpu/mem = %.3f/%.1f/%.0f, recomputed from active tasks = %.3f/%.1f/%.0f", id, a.GPUs(), a.Cpu(), a.Memory(), s.gpu, s.cpu, s.mem)
 		}
 	}
